@@ -272,6 +272,10 @@ def replay_spec(run, m, oracle, zone=None, extra=None):
         "zone": zone,
         "oracle": oracle,
     }
+    if run.op == "control_breeze_device":
+        from harness import breezeargs
+
+        spec["remote"] = breezeargs.remote_json(run, m)
     if extra:
         spec.update(extra)
     return spec
